@@ -15,7 +15,12 @@ def fuelFor (_vs : List Val) : Nat := 64
 def tryMessage (S : Schema) (P : IR.Prog) (pkt : String) (vs : List Val) : List (String × Json) :=
   let regs : List (String × Registry) :=
     [("none", fun _ => none), ("sum", fun _ => some fun b => b.foldl (fun a x => a + x.toNat) 7),
-     ("len", fun _ => some fun b => b.length * 2654435761 + 1)]
+     ("len", fun _ => some fun b => b.length * 2654435761 + 1),
+     -- only the algorithms the DSL declares are registered, each with a function of its own: a look-up under another name
+     -- (or under the name of another field's algorithm) writes something else
+     ("byname", fun nm =>
+        let declared := S.packets.flatMap fun p => p.fields.filterMap fun f => match f.kind with | .checksum _ a => some a | _ => none
+        if declared.contains nm then some (fun b => b.foldl (fun a x => a + x.toNat) (nm.length * 131 + nm.hash.toNat % 1000 + 7)) else none)]
   regs.foldl (fun acc (rn, reg) =>
     if !acc.isEmpty then acc else
     let pre : Bytes := [0xEE, 0x01]
@@ -150,6 +155,22 @@ def handle (req : Json) : Json :=
                       ("missing", Json.arr (topMissing cst tests).toArray),
                       ("unloadable", Json.arr bad.toArray),
                       ("results", Json.arr (tests.map (SelfTest.reportJ S P fl 64)).toArray)]
+  | "schema" =>
+    -- the declared types of every member, for the checks that compare them with the target-language member types
+    match parseFull text with
+    | none => Json.mkObj [("error", "syntax")]
+    | some cst =>
+      match specOf cst with
+      | none => Json.mkObj [("error", "no-spec")]
+      | some S =>
+        Json.mkObj [("packets", Json.arr (S.packets.map fun p =>
+          Json.mkObj [("name", (p.name : Json)), ("fields", Json.arr (p.fields.map fun f =>
+            Json.mkObj [("name", (f.name : Json)), ("rep", (f.rep : Json)),
+              ("kind", (match f.kind with
+                | .scalar _ => "scalar" | .fixed _ _ => "fixed" | .dyn => "dyn" | .obj _ => "obj" | .matchOn _ _ => "match"
+                | .lengthOf _ _ => "length" | .checksum _ _ => "checksum" : String)),
+              ("ty", (match f.kind with
+                | .scalar t | .lengthOf t _ | .checksum t _ => t.name | .obj q => q | _ => "" : String))]).toArray)]).toArray)]
   | "conform" | "search" =>
     match parseFull text with
     | none => Json.mkObj [("error", "syntax")]
